@@ -16,6 +16,7 @@ import Driver.GovTally
 import Driver.Gauge
 import Driver.RS
 import Driver.DA
+import Driver.Proposal
 open Sunrise.Driver
 
 def evalLine (line : String) : String :=
@@ -48,6 +49,7 @@ def suites : List (String × (IO.FS.Stream → IO.FS.Stream → IO Unit)) :=
   [("gauge", GaugeSuite.run)] ++
   [("rs", RSSuite.run)] ++
   [("da", DASuite.run)] ++
+  [("proposal", ProposalSuite.run)] ++
   []
 
 def main : IO Unit := do
